@@ -451,6 +451,11 @@ class Run:
             ],
             "exhaustive": self.exhaustive,
         }
+        if discharged == 0:
+            # nothing could be audited (the build is broken): the proof-level keys would claim nothing;
+            # the schema then falls back to the exploration-style counts
+            del cov["discharged"]
+            cov["discharged_count"] = 0
         cov.update(self.extra)
         ev = {
             "property_id": self.prop,
